@@ -1,4 +1,4 @@
-(* C01 oracle and non-triviality on wiring cases. Correspondence: Corr/Wiring.v [wcheck];
+(* C03 oracle and non-triviality on wiring cases. Correspondence: Corr/Wiring.v [wcheck];
    oracles: Corr/WiringOracles.v (static scenario data + the implementation's observation only). *)
 From Coq Require Import List Arith Bool.
 From IocVerif Require Import Model.App Corr.Wiring Corr.WiringOracles.
@@ -6,10 +6,10 @@ Import ListNotations.
 
 Definition check_case : wcase -> bool := wcheck.
 
-(* after a successful start every version held anywhere equals the by-name lookup of its component *)
+(* no mixed versions after a successful start, for every wrap table *)
 Definition oracle_case (c : wcase) : bool := oracle_one_version c.
 
-Definition nontrivial (c : wcase) : bool := ok_start c && shared c 2.
+Definition nontrivial (c : wcase) : bool := has_wrap c && shared c 1.
 
 Definition mismatches (cs : list wcase) : list nat := wmismatches cs.
 Definition violations (cs : list wcase) : list nat :=
